@@ -57,16 +57,36 @@ def _run(it, fmt, from_string, keep):
     return run
 
 
+_GTF_TEXTS = [
+    'chr1\t.\texon\t1\t20\t.\t+\t.\tgene_id "g"; transcript_id "t";\nchr1\t.\texon\t30\t50\t.\t+\t.\tgene_id "g"; transcript_id "t";\n',
+    # nothing to infer: no exon line / only explicit gene and transcript lines / one line
+    'chr1\t.\tCDS\t1\t20\t.\t+\t0\tgene_id "g"; transcript_id "t";\nchr1\t.\tstart_codon\t1\t3\t.\t+\t0\tgene_id "g"; transcript_id "t";\n',
+    'chr1\t.\tgene\t1\t50\t.\t+\t.\tgene_id "g";\nchr1\t.\ttranscript\t1\t50\t.\t+\t.\tgene_id "g"; transcript_id "t";\n',
+]
+_GFF_TEXTS = [
+    "chr1\t.\tgene\t1\t50\t.\t+\t.\tID=g\nchr1\t.\tmRNA\t1\t50\t.\t+\t.\tID=m;Parent=g\nchr1\t.\texon\t1\t20\t.\t+\t.\tID=e;Parent=m\n",
+    # no relation at all / a single feature
+    "chr1\t.\tgene\t1\t50\t.\t+\t.\tID=g\nchr1\t.\tgene\t60\t90\t.\t+\t.\tID=h\n",
+    "chr1\t.\tgene\t1\t50\t.\t+\t.\tID=g\n",
+]
+
+
 def _native_tmp_replay(fmt, from_string, keep):
+    """input shapes tried: the ordinary hierarchy, then inputs with nothing to relate / infer"""
+    last = None
+    for text in (_GFF_TEXTS if fmt == "gff3" else _GTF_TEXTS):
+        last = _native_tmp_replay1(fmt, from_string, keep, text)
+        if last.get("violates"):
+            return last
+    return last
+
+
+def _native_tmp_replay1(fmt, from_string, keep, text):
     import tempfile, os, shutil
     d = tempfile.mkdtemp()
     old = tempfile.tempdir
     tempfile.tempdir = d
     try:
-        if fmt == "gff3":
-            text = "chr1\t.\tgene\t1\t50\t.\t+\t.\tID=g\nchr1\t.\tmRNA\t1\t50\t.\t+\t.\tID=m;Parent=g\nchr1\t.\texon\t1\t20\t.\t+\t.\tID=e;Parent=m\n"
-        else:
-            text = 'chr1\t.\texon\t1\t20\t.\t+\t.\tgene_id "g"; transcript_id "t";\nchr1\t.\texon\t30\t50\t.\t+\t.\tgene_id "g"; transcript_id "t";\n'
         out = os.path.join(d, "out.db")
         if from_string:
             gffutils.create_db(text, out, from_string=True, _keep_tempfiles=keep)
@@ -76,7 +96,7 @@ def _native_tmp_replay(fmt, from_string, keep):
             gffutils.create_db(src, out, _keep_tempfiles=keep)
         left = sorted(x for x in os.listdir(d) if x not in ("out.db", "in.txt"))
         exp_none = not keep
-        return {"inputs": {"fmt": fmt, "from_string": from_string, "_keep_tempfiles": keep}, "expected": "no intermediate file left" if exp_none else "kept files only",
+        return {"inputs": {"fmt": fmt, "from_string": from_string, "_keep_tempfiles": keep, "text": text}, "expected": "no intermediate file left" if exp_none else "kept files only",
                 "observed": left, "violates": bool(left) if exp_none else False}
     finally:
         tempfile.tempdir = old
